@@ -27,6 +27,89 @@ pub trait Shape {
     fn kc(k: &Self::K) -> u8;
     fn vc(v: &Self::V) -> u8;
     fn set_v(v: &mut Self::V, content: u8);
+    /// number of element objects of this shape currently alive (shapes that count them)
+    fn live() -> i64 {
+        0
+    }
+}
+
+thread_local! {
+    static TOKENS: Cell<i64> = const { Cell::new(0) };
+}
+/// a zero-sized object WITH a destructor (a token / guard): code that decides by `size_of` whether
+/// something needs to be destroyed forgets these
+pub struct Token;
+impl Token {
+    fn make() -> Token {
+        TOKENS.with(|c| c.set(c.get() + 1));
+        Token
+    }
+}
+impl Drop for Token {
+    fn drop(&mut self) {
+        TOKENS.with(|c| c.set(c.get() - 1));
+    }
+}
+impl Clone for Token {
+    fn clone(&self) -> Token {
+        Token::make()
+    }
+}
+impl PartialEq for Token {
+    fn eq(&self, _: &Token) -> bool {
+        true
+    }
+}
+pub struct TokenVal;
+impl Shape for TokenVal {
+    type K = u8;
+    type V = Token;
+    const NAME: &'static str = "zero-sized value with a destructor";
+    const ALLOCATES: bool = false;
+    const MAX_CLASS: u8 = 255;
+    const MAX_VAL: u8 = 0;
+    fn k(c: u8) -> u8 {
+        c
+    }
+    fn v(_: u8) -> Token {
+        Token::make()
+    }
+    fn kc(k: &u8) -> u8 {
+        *k
+    }
+    fn vc(_: &Token) -> u8 {
+        0
+    }
+    fn set_v(_: &mut Token, _: u8) {}
+    fn live() -> i64 {
+        TOKENS.with(|c| c.get())
+    }
+}
+pub struct TokenKey;
+impl Shape for TokenKey {
+    type K = Token;
+    type V = u8;
+    const NAME: &'static str = "zero-sized key with a destructor";
+    const ALLOCATES: bool = false;
+    const MAX_CLASS: u8 = 0;
+    fn k(_: u8) -> Token {
+        Token::make()
+    }
+    fn v(c: u8) -> u8 {
+        c
+    }
+    fn kc(_: &Token) -> u8 {
+        0
+    }
+    fn vc(v: &u8) -> u8 {
+        *v
+    }
+    fn set_v(v: &mut u8, c: u8) {
+        *v = c
+    }
+    fn live() -> i64 {
+        TOKENS.with(|c| c.get())
+    }
 }
 
 pub struct Zst;
@@ -591,7 +674,7 @@ fn post_of(p: &Value) -> Vec<(u8, u8)> {
 fn supported(name: &str) -> bool {
     matches!(
         name,
-        "insert" | "insert_key_value" | "checked_insert" | "get" | "get_key_value" | "contains_key" | "get_mut" | "index" | "index_mut" | "remove"
+        "insert" | "insert_key_value" | "checked_insert" | "insert_unchecked" | "get" | "get_key_value" | "contains_key" | "get_mut" | "index" | "index_mut" | "remove"
             | "remove_entry" | "retain" | "clear" | "from_iter" | "from_array" | "clone" | "drain" | "cursor" | "s_insert" | "s_replace" | "s_contains" | "s_get" | "s_remove"
             | "s_take" | "s_retain" | "s_clear" | "s_extend" | "s_from_iter" | "s_from_array"
     )
@@ -653,6 +736,7 @@ fn edge_map<S: Shape, const N: usize>(t: &Value, line: usize, rep: &mut Report) 
     let mut fails: Vec<Fail> = Vec::with_capacity(4);
     let mut allocs = 0u64;
     let live0 = ledger::live_blocks();
+    let tok0 = S::live();
     let mut cage = Cage::new(Map::<S::K, S::V, N>::new());
     for e in t["s"].as_array().unwrap() {
         cage.m.insert(S::k(e[0].as_u64().unwrap() as u8), S::v(e[2].as_u64().unwrap() as u8));
@@ -665,6 +749,12 @@ fn edge_map<S: Shape, const N: usize>(t: &Value, line: usize, rep: &mut Report) 
     let probe = S::k(c);
     let obs: Value = match name {
         "insert" => match measured(&mut allocs, || m.insert(S::k(kc), S::v(vc))) {
+            None => json!(["panic"]),
+            Some(None) => json!(["none"]),
+            Some(Some(v)) => json!(["val", S::vc(&v)]),
+        },
+        // (the model only generates calls inside the contract: the key is present or there is room)
+        "insert_unchecked" => match measured(&mut allocs, || unsafe { m.insert_unchecked(S::k(kc), S::v(vc)) }) {
             None => json!(["panic"]),
             Some(None) => json!(["none"]),
             Some(Some(v)) => json!(["val", S::vc(&v)]),
@@ -856,6 +946,17 @@ fn edge_map<S: Shape, const N: usize>(t: &Value, line: usize, rep: &mut Report) 
     if S::ALLOCATES && live1 != live0 && fails.is_empty() {
         fails.push(Fail { props: "C02".into(), msg: format!("[{}] {} heap block(s) still live after {name} and the drop of the container: elements were leaked", S::NAME, live1 - live0) });
     }
+    let tok1 = S::live();
+    if tok1 != tok0 && fails.is_empty() {
+        fails.push(Fail {
+            props: "C02".into(),
+            msg: if tok1 > tok0 {
+                format!("[{}] {} element object(s) still alive after {name} and the drop of the container: neither handed out nor destroyed", S::NAME, tok1 - tok0)
+            } else {
+                format!("[{}] {} more element object(s) destroyed than created during {name}", S::NAME, tok0 - tok1)
+            },
+        });
+    }
     finish(t, line, fails, rep);
 }
 
@@ -896,6 +997,7 @@ fn edge_set_generic<S: Shape, const N: usize>(
     let name = op["name"].as_str().unwrap();
     let mut fails: Vec<Fail> = vec![];
     let mut allocs = 0u64;
+    let tok0 = S::live();
     let mut cage = Cage::new(Set::<S::K, N>::new());
     for e in t["s"].as_array().unwrap() {
         cage.m.insert(S::k(e[0].as_u64().unwrap() as u8));
@@ -990,6 +1092,19 @@ fn edge_set_generic<S: Shape, const N: usize>(
         fails.push(Fail { props: "C06".into(), msg: format!("[{}] {allocs} allocator call(s) inside a non-panicking container call ({name})", S::NAME) });
     }
     drop(cage);
+    drop(probe);
+    drop(obs);
+    let tok1 = S::live();
+    if tok1 != tok0 && fails.is_empty() {
+        fails.push(Fail {
+            props: "C02".into(),
+            msg: if tok1 > tok0 {
+                format!("[{}] {} element object(s) still alive after {name} and the drop of the container: neither handed out nor destroyed", S::NAME, tok1 - tok0)
+            } else {
+                format!("[{}] {} more element object(s) destroyed than created during {name}", S::NAME, tok0 - tok1)
+            },
+        });
+    }
     finish(t, line, fails, rep);
 }
 
@@ -1026,6 +1141,7 @@ pub fn run_shapes(table: &Table, set_mode: bool, rep: &mut Report) -> std::colle
             go!(SmallCopy, edge_set_sc, t, idx, n);
             go!(Heap, edge_set_h, t, idx, n);
             go!(Large, edge_set_l, t, idx, n);
+            go!(TokenKey, edge_set_tk, t, idx, n);
             crate::replay::with_n!(n, edge_tagged_set, t, idx, rep);
             crate::replay::with_n!(n, edge_dst_set, t, idx, rep);
         } else {
@@ -1036,6 +1152,8 @@ pub fn run_shapes(table: &Table, set_mode: bool, rep: &mut Report) -> std::colle
             go!(NoDropClone, edge_map_c, t, idx, n);
             go!(PlainKeyOwnedVal, edge_map_pk, t, idx, n);
             go!(OwnedKeyPlainVal, edge_map_ok, t, idx, n);
+            go!(TokenVal, edge_map_tv, t, idx, n);
+            go!(TokenKey, edge_map_tk, t, idx, n);
             crate::replay::with_n!(n, edge_tagged, t, idx, rep);
             crate::replay::with_n!(n, edge_dst, t, idx, rep);
         }
@@ -1068,8 +1186,11 @@ adapters! {
     edge_map_c => edge_map, NoDropClone;
     edge_map_pk => edge_map, PlainKeyOwnedVal;
     edge_map_ok => edge_map, OwnedKeyPlainVal;
+    edge_map_tv => edge_map, TokenVal;
+    edge_map_tk => edge_map, TokenKey;
     edge_set_z => edge_set, Zst;
     edge_set_sc => edge_set, SmallCopy;
     edge_set_h => edge_set_nocopy, Heap;
     edge_set_l => edge_set, Large;
+    edge_set_tk => edge_set_nocopy, TokenKey;
 }
